@@ -31,6 +31,8 @@ def section(notes, pat):
 for d in sorted(glob.glob(f'{V}/seeded/C*/mut*')):
     if flt and flt not in d:
         continue
+    if os.environ.get('SKIP_DONE') and os.path.exists(f'{d}/meta.json'):
+        continue
     prop, mut = d.split('/')[-2:]
     W, O = f'/tmp/wt/meta_{prop}_{mut}', f'/tmp/wt/metaout_{prop}_{mut}'
     sh(f'git -C /repo worktree remove --force {W}; rm -rf {O}; mkdir -p {O}')
@@ -59,7 +61,7 @@ for d in sorted(glob.glob(f'{V}/seeded/C*/mut*')):
             title=title,
             author='fresh sub-agent given only the property text and a scratch worktree' if os.path.exists(f'{d}/notes.md') else 'verifier-crafted (no MPI runtime in the sandbox for a sub-agent to demonstrate against); demo runs on the simulated mpi4py',
             files_changed=files,
-            needs_to_manifest=section(notes, r'(\*\*|#+ )\s*(what it needs|needs)[^\n]*manifest[^\n]*') or open(f'{d}/needs.txt').read().strip() if (notes or os.path.exists(f'{d}/needs.txt')) else None,
+            needs_to_manifest=section(notes, r'(\*\*|#+ )\s*(what it needs|needs|needed|trigger|requires)[^\n]*') or (open(f'{d}/needs.txt').read().strip() if os.path.exists(f'{d}/needs.txt') else None),
             confirmed=dict(
                 repo_head=head,
                 how='scratch git worktree of /repo HEAD under /tmp/wt (removed afterwards); patch applied with git apply',
